@@ -28,6 +28,7 @@ def deductive(check, tier):
     verify(A.copy_with_new_atts, tier, check)
     verify(A.new_with_atts_removed, tier, check)
     verify(A.shared_atts, tier, check)
+    verify(A.copy_with_new_str, tier, check)
 
 
 # ------------------------------------------------------------------------------ spec of parse_args (from the statement)
